@@ -20,7 +20,12 @@ OPTION_SETS = [[], [], ["score=automatic"], ["score=automatic"], ["bmax=5"], ["i
                ["score=automatic", "temperature=25", "W_bonds=2.5", "bmult=1"], ["bored=2"], ["OUTPUT"], ["SEQUENCE", "imax=20"],
                ["SEQUENCE", "trace=ON", "imax=30"], ["SEQUENCE", "imax=1"], ["SEQUENCE", "trace=ON", "score=automatic", "bmult=1"], ["SEQUENCE", "trace=ON", "bmax=6"],
                ["score=automatic", "bmax=0"], ["bored=0", "score=automatic"], ["bmax=0"], ["quiet=SCORES"], ["quiet=SCORES", "score=automatic", "bmult=1"],
-               ["bmult=0"], ["score=automatic", "bmult=0"], ["score=verboten", "bmult=0"]]
+               ["bmult=0"], ["score=automatic", "bmult=0"], ["score=verboten", "bmult=0"],
+               # numeric options at and beyond the ends of their ranges (spurious_range is clamped to 10)
+               ["spurious_range=10", "imax=20"], ["spurious_range=9", "score=automatic", "imax=20"], ["spurious_range=1", "imax=20"], ["spurious_range=25", "bmax=3"],
+               ["spurious_beta=1", "imax=20"], ["W_spurious=0", "imax=20"], ["temperature=0", "score=automatic", "imax=20"],
+               # the number files in other spellings the reader accepts (reals, exponents, signs, one number per line)
+               ["SPELL=real", "imax=20"], ["SPELL=exp", "score=automatic", "imax=20"], ["SPELL=lines", "imax=20"]]
 
 def hand_triples(rng):
     out = []
@@ -58,13 +63,17 @@ def impl_case(case):
     os.makedirs(d, exist_ok=True)
     st, wc, eq = case["st"], case["wc"], case["eq"]
     open(os.path.join(d, "t.st"), "w").write(st)
-    open(os.path.join(d, "t.wc"), "w").write("".join("%d " % x for x in wc))
-    open(os.path.join(d, "t.eq"), "w").write("".join("%d " % x for x in eq))
+    spell = [o.split("=", 1)[1] for o in case["opts"] if o.startswith("SPELL=")]
+    fmt = {"real": "%.1f ", "exp": "%.18e ", "lines": "%+d\n"}.get(spell[0] if spell else "", "%d ")
+    open(os.path.join(d, "t.wc"), "w").write("".join(fmt % x for x in wc))
+    open(os.path.join(d, "t.eq"), "w").write("".join(fmt % x for x in eq))
     args = [case["binary"], "template=" + os.path.join(d, "t.st"), "wc=" + os.path.join(d, "t.wc"), "eq=" + os.path.join(d, "t.eq")]
     outfile = None; init = None
     for o in case["opts"]:
         if o == "OUTPUT":
             outfile = os.path.join(d, "final.txt"); args.append("output=" + outfile)
+        elif o.startswith("SPELL="):
+            pass
         elif o == "SEQUENCE":
             rng = random.Random(case["seed"])
             G = pepper.GROUPS
